@@ -418,15 +418,19 @@ class R:
         return '<' + 'r' * (self.n - 2) + '>' if self.n >= 2 else 'r' * self.n
 
     def __len__(self):
-        if self.ln < 0:
+        if self.ln == -1:
             raise TypeError('no len')
+        if self.ln == -2:
+            raise OverflowError('cannot fit')
+        if self.ln == -3:
+            raise RuntimeError('lazy collection')
         return self.ln
 
 
 def truncate(nk: int, maxlen: int, lk: int) -> bool:
     start()
     n = [1, 5, 13, 14, 15, 40, 119, 120, 121][nk]
-    ln = [-1, 0, 3, 12, 1000][lk]
+    ln = [-1, 0, 3, 12, 1000, -2, -3][lk]
     maxlen = concretize(maxlen, 14, 121)
     if maxlen is OUT:
         return True
@@ -437,7 +441,7 @@ def truncate(nk: int, maxlen: int, lk: int) -> bool:
         reach('fits')
         return s == full or fail(why='a value that fits must be shown in full', s=s)
     reach('cut')
-    suffix = '... (len=%s)' % ln if ln >= 0 else '...'
+    suffix = '... (len=%s)' % ln if ln >= 0 else '...'       # any failure of len() falls back to the bare ellipsis
     ok = len(s) == maxlen and s.endswith(suffix) and full.startswith(s[:maxlen - len(suffix)])
     return ok or fail(why='truncated value', s=s, maxlen=maxlen, full=full)
 
@@ -495,7 +499,7 @@ def obligations(tier):
     obs.append(Ob(equal_targets, pre='0 <= kind <= 3 and 0 <= where <= 1', name='equal_targets', timeout=200))
     obs.append(Ob(recovered_outer, pre='0 <= inner <= 2 and 0 <= rec <= 3 and 0 <= outer <= 2', name='recovered_outer', timeout=300))
     for nk in range(9):
-        obs.append(Ob(truncate, fixed={'nk': nk}, pre='14 <= maxlen <= 121 and 0 <= lk <= 4', name='truncate_n%d' % nk, timeout=300))
+        obs.append(Ob(truncate, fixed={'nk': nk}, pre='14 <= maxlen <= 121 and 0 <= lk <= 6', name='truncate_n%d' % nk, timeout=300))
     for depth in range(1, 4 if q else 5):
         obs.append(Ob(width, fixed={'depth': depth}, pre='50 <= wd <= 120 and 0 <= tkind <= 2', name='width_d%d' % depth, timeout=300))
     fx = {'root': 2, 'fault': 0, 'tkind': 1}
@@ -504,5 +508,5 @@ def obligations(tier):
     obs.append(Ob(trace_shape, fixed=fx, pre=tp, twin='truncated', name='trace_shape_tuple'))
     obs.append(Ob(trace_branches, fixed={'root': 2, 'c0': 6}, pre=ck.format(v='c1') + ' and 0 <= p <= 3 and 0 <= q <= 4', twin='recovered', name='trace_branches_tc'))
     obs.append(Ob(trace_branches, fixed={'root': 6, 'c0': LEAF}, pre=ck.format(v='c1') + ' and 0 <= p <= 3 and 0 <= q <= 4', twin='all_failed', name='trace_branches_cl'))
-    obs.append(Ob(truncate, fixed={'nk': 5}, pre='14 <= maxlen <= 121 and 0 <= lk <= 4', twin='cut', name='truncate'))
+    obs.append(Ob(truncate, fixed={'nk': 5}, pre='14 <= maxlen <= 121 and 0 <= lk <= 6', twin='cut', name='truncate'))
     return obs
